@@ -5,6 +5,7 @@ import ClusterVerif.Model.C01Gate
 import ClusterVerif.Lemmas.C01Shutdown
 import ClusterVerif.Gen.C01Shutdown
 import ClusterVerif.Spec.C01Folder
+import ClusterVerif.Model.C01FolderTerm
 
 /-!
 # C01 — Raft: every replica's pinset equals the committed pin/unpin sequence
@@ -873,5 +874,125 @@ theorem stale_import_fails :
     visible (stepStaleImport s (.importSt [0, 2])).1 = [7] ∧
     foldHolds [⟨.importSt [0, 2], .kept, [7]⟩] = false := by
   decide
+
+end CV.C01.Folder
+
+/-! ## Round 8c: the folder WITH Raft terms (`Model/C01FolderTerm`) — K01e as a model arm
+
+`FileSnapshotStore.List` orders by (term, index); `SnapshotSave` over an existing snapshot keeps its term while `CleanupRaft`
+discards the stable store. The term-aware model is what suite `fold` compares the implementation with (the spec stays the
+intended one), so the K01e cases AGREE with the model and fail `folder_exact` only. -/
+namespace CV.C01.Folder
+
+theorem atLeast_iff (a b : Snap) : atLeast a b = true ↔ b.term < a.term ∨ (a.term = b.term ∧ b.idx ≤ a.idx) := by
+  simp [atLeast]
+
+/-- the snapshot written last is `snapMetas[0]` iff it sorts at or before the previous first one -/
+theorem newest_cons_iff (a : Snap) (l : List Snap) :
+    newest (a :: l) = some a ↔ ∀ b, newest l = some b → atLeast a b = true := by
+  cases h : newest l with
+  | none => simp [newest, h]
+  | some b =>
+    by_cases hab : atLeast a b = true
+    · simp [newest, h, hab]
+    · simp only [newest, h, hab]
+      constructor
+      · intro he
+        have : b = a := by simpa using he
+        subst this
+        exact absurd (by simp [atLeast]) hab
+      · intro hall
+        exact absurd (hall b rfl) hab
+
+/-- THE shutdown snapshot of a running node whose FSM holds a state is the folder's newest snapshot iff its (term, index)
+    is at or above the newest one already there -/
+theorem shutdown_snapshot_newest_iff (s : TSt) (hu : s.up = true) (hi : s.init = true) :
+    newest (stepT s .shutdown).1.snaps = some ⟨s.lterm, s.lidx, s.live⟩ ↔
+      ∀ b, newest s.snaps = some b → (b.term < s.lterm ∨ (s.lterm = b.term ∧ b.idx ≤ s.lidx)) := by
+  have : (stepT s .shutdown).1.snaps = ⟨s.lterm, s.lidx, s.live⟩ :: s.snaps := by simp [stepT, takeSnap, hu, hi]
+  rw [this, newest_cons_iff]
+  constructor
+  · intro h b hb; exact (atLeast_iff _ _).1 (h b hb)
+  · intro h b hb; exact (atLeast_iff _ _).2 (h b hb)
+
+/-- … and, what the FSM applied being at or behind every snapshot's index (`b.idx ≤ s.lidx`: it restored the newest one): iff
+    its TERM — the term of the last operation applied, NOT the current term — is at least the term of the newest snapshot
+    there, e.g. the imported one -/
+theorem shutdown_snapshot_newest_iff_term (s : TSt) (hu : s.up = true) (hi : s.init = true) (b : Snap)
+    (hb : newest s.snaps = some b) (hidx : b.idx ≤ s.lidx) :
+    newest (stepT s .shutdown).1.snaps = some ⟨s.lterm, s.lidx, s.live⟩ ↔ b.term ≤ s.lterm := by
+  rw [shutdown_snapshot_newest_iff s hu hi]
+  constructor
+  · intro h
+    rcases h b hb with h1 | ⟨h1, _⟩
+    · exact Nat.le_of_lt h1
+    · exact Nat.le_of_eq h1.symm
+  · intro h c hc
+    have : c = b := by rw [hb] at hc; exact (Option.some.inj hc).symm
+    subst this
+    rcases Nat.lt_or_eq_of_le h with h1 | h1
+    · exact Or.inl h1
+    · exact Or.inr ⟨h1.symm, hidx⟩
+
+example : let s : TSt := { up := true, init := true, live := [0, 2, 5], snaps := [⟨2, 4, [0, 2]⟩], cur := 1, idx := 6, lterm := 1, lidx := 6 }
+    newest (stepT s .shutdown).1.snaps = some ⟨2, 4, [0, 2]⟩ := by decide
+
+/-- K01e for EVERY folder: a stopped folder whose newest snapshot has term ≥ 2 (any cluster that ever elected a leader), any
+    imported state, any cid not in it — the import takes the metadata over, the next start serves the imported state, the pin is
+    acknowledged and served, and after the clean shutdown the offline read shows the imported state WITHOUT it -/
+theorem kept_import_hides_later_ops (s : TSt) (b : Snap) (m : List Nat) (c : Nat) (hd : s.up = false)
+    (hb : newest s.snaps = some b) (ht : 2 ≤ b.term) (hc : ins c (norm m) ≠ norm m) :
+    let s1 := (stepT s (.importSt m)).1
+    let s2 := (stepT s1 .restart).1
+    let s3 := (stepT s2 (.pin c)).1
+    let s4 := (stepT s3 .shutdown).1
+    (stepT s (.importSt m)).2 = .kept ∧ visibleT s1 = norm m ∧ visibleT s2 = norm m ∧ visibleT s3 = ins c (norm m) ∧
+      visibleT s4 = norm m ∧ visibleT s4 ≠ visibleT s3 := by
+  have h1 : ¬ b.term < 1 := by omega
+  have h2 : ¬ 1 = b.term := by omega
+  simp [stepT, visibleT, takeSnap, newest, atLeast, replayFrom, suffixFrom, hd, hb, h1, h2]
+  exact fun h => hc h.symm
+
+example : newest ({ snaps := [⟨2, 4, [7]⟩] } : TSt).snaps = some ⟨2, 4, [7]⟩ ∧ ins 5 (norm [0, 2]) ≠ norm [0, 2] := by decide
+
+/-- the smallest K01e case: the term-aware model yields EXACTLY the observations of the real code
+    (`C01 fold 0 R,p7,d,i0.2,R,p5,d,o => ok~- ok~7 ok~7 ok~0.2~k ok~0.2 ok~0.2.5 ok~0.2 ok~0.2`), they fail the property,
+    one shutdown snapshot is not the newest; one more start restores the stale snapshot + the log suffix behind ITS index (the
+    acknowledged state) but a shutdown then is stale AGAIN (the replayed entry carries term 1); only an operation committed
+    in a term ≥ the imported one makes the shutdown snapshot the newest again -/
+theorem k01e_predicted_by_term_model :
+    let steps : List Step := [.restart, .pin 7, .shutdown, .importSt [0, 2], .restart, .pin 5, .shutdown, .offline]
+    runTraceT {} steps = [⟨.restart, .ok, []⟩, ⟨.pin 7, .ok, [7]⟩, ⟨.shutdown, .ok, [7]⟩, ⟨.importSt [0, 2], .kept, [0, 2]⟩,
+        ⟨.restart, .ok, [0, 2]⟩, ⟨.pin 5, .ok, [0, 2, 5]⟩, ⟨.shutdown, .ok, [0, 2]⟩, ⟨.offline, .ok, [0, 2]⟩] ∧
+      foldHolds (runTraceT {} steps) = false ∧ staleShutdowns {} steps = 1 ∧
+      (runTraceT {} (steps ++ [.restart, .shutdown, .offline])).map (·.vis) =
+        [[], [7], [7], [0, 2], [0, 2], [0, 2, 5], [0, 2], [0, 2], [0, 2, 5], [0, 2], [0, 2]] ∧
+      staleShutdowns {} (steps ++ [.restart, .shutdown, .offline]) = 2 ∧
+      (runTraceT {} (steps ++ [.restart, .pin 1, .shutdown, .offline])).map (·.vis) =
+        [[], [7], [7], [0, 2], [0, 2], [0, 2, 5], [0, 2], [0, 2], [0, 2, 5], [0, 1, 2, 5], [0, 1, 2, 5], [0, 1, 2, 5]] ∧
+      staleShutdowns {} (steps ++ [.restart, .pin 1, .shutdown, .offline]) = 1 := by
+  decide
+
+/-- the repair proposed for K01e (the import writes term 1 / index 2 like the fresh arm, the folder being fresh after
+    `CleanupRaft`): for every stopped folder (no log without a snapshot: only clean shutdowns), imported state and cid the
+    offline read after the shutdown shows the pin -/
+theorem fixed_import_shutdown_exact (s : TSt) (m : List Nat) (c : Nat) (hd : s.up = false)
+    (hl : newest s.snaps = none → s.log = []) :
+    let s1 := (stepTFixed s (.importSt m)).1
+    let s2 := (stepTFixed s1 .restart).1
+    let s3 := (stepTFixed s2 (.pin c)).1
+    let s4 := (stepTFixed s3 .shutdown).1
+    visibleT s1 = norm m ∧ visibleT s2 = norm m ∧ visibleT s3 = ins c (norm m) ∧ visibleT s4 = ins c (norm m) := by
+  have hc : 0 < s.cur ∨ s.cur = 0 := by omega
+  cases hb : newest s.snaps with
+  | none => simp [stepTFixed, stepT, visibleT, takeSnap, newest, atLeast, replayFrom, suffixFrom, hd, hb, hl hb, hc]
+  | some b => simp [stepTFixed, stepT, visibleT, takeSnap, newest, atLeast, replayFrom, suffixFrom, hd, hb]
+
+/-- without any import over an existing snapshot the two models coincide on this history (first start, ops, forced
+    snapshot, shutdown, cleanup, fresh import, start, ops, shutdown): the intended model is the term-aware one there -/
+example : runTraceT {} [.restart, .pin 4, .snapshot, .pin 1, .shutdown, .clean, .offline, .importSt [6, 4, 2], .restart,
+      .unpin 6, .pin 3, .shutdown, .offline] =
+    runTrace {} [.restart, .pin 4, .snapshot, .pin 1, .shutdown, .clean, .offline, .importSt [6, 4, 2], .restart,
+      .unpin 6, .pin 3, .shutdown, .offline] := by decide
 
 end CV.C01.Folder
